@@ -18,6 +18,7 @@ func runC10(r *engine.Run) {
 	r.Rule("ORDER-recompute", "in every success arm of verifyProof the verified child (result of the recursive verification) is stored into the node, dirty=true is stored and CalcHash() is called on that node, all before the node is returned; VerifyBlockProof returns Hash() of exactly that node: no wire-provided hash reaches the result without being recomputed")
 	r.Rule("DOM-range", "verifyProof's value and shared-prefix arms succeed only when block > node.Weight() tested false; the branch arm descends only under block <= child.Weight(), carries block - skipped weight, and reports ErrWeightNotInRange when the children are exhausted")
 	r.Rule("AGREE-limits", "see C12: proof verification decodes with the same CBOR limits as the export importer (an honest proof of a full-depth path has one element more than the key has nibbles and must not be rejected for its size)")
+	r.Rule("AGREE-domain", "the hash pre-images of the node kinds are domain separated: each kind's CalcHash starts its pre-image with a constant tag that differs between kinds; without it a value node whose bytes are a branch's child hashes has the branch's hash, so a proof may present a branch as a value")
 	r.Rule("AGREE-bind", "navigated-by is a subset of committed-to: what verifyProof reads from a node's children to decide where to descend (their Weight()) must be part of what that node kind's CalcHash appends to its pre-image per child; a value node's pre-image contains its weight and value")
 	r.NotDec = append(r.NotDec, "absence of other forgeries (a statement over all byte strings)", "that honest proofs verify for every content (value-level)")
 	f := r.Fn("ORDER-recompute", pkgWMPT, "", "verifyProof")
@@ -28,6 +29,7 @@ func runC10(r *engine.Run) {
 	domRangeVerify(r, f)
 	agreeBind(r, f)
 	agreeLimits(r, "AGREE-limits")
+	agreeDomain(r)
 }
 
 func orderRecompute(r *engine.Run, f *ssa.Function) {
@@ -301,4 +303,68 @@ func keys(m map[string]bool) string {
 	}
 	sort.Strings(s)
 	return "{" + strings.Join(s, ", ") + "}"
+}
+
+// agreeDomain: kind-specific constant tag at the start of every pre-image.
+func agreeDomain(r *engine.Run) {
+	const rule = "AGREE-domain"
+	tags := map[string]string{}
+	for _, kind := range []string{"routingNode", "shortNode", "valueNode"} {
+		f := r.Fn(rule, pkgWMPT, kind, "CalcHash")
+		if f == nil {
+			return
+		}
+		// the first value appended to the pre-image buffer
+		var first ssa.Instruction
+		engine.Instrs(f, func(in ssa.Instruction) {
+			if first != nil {
+				return
+			}
+			c, ok := in.(*ssa.Call)
+			if !ok {
+				return
+			}
+			if b, ok := c.Call.Value.(*ssa.Builtin); ok && b.Name() == "append" && isByteSlice(c.Type()) {
+				first = in
+			}
+			if sc := c.Call.StaticCallee(); sc != nil && (sc.Name() == "AppendUint64" || sc.Name() == "AppendUint32") {
+				first = in
+			}
+		})
+		tag := ""
+		if c, ok := first.(*ssa.Call); ok {
+			if b, ok := c.Call.Value.(*ssa.Builtin); ok && b.Name() == "append" {
+				// append(m, <constant bytes>...)
+				if sl, ok := c.Call.Args[1].(*ssa.Slice); ok {
+					if al, ok := sl.X.(*ssa.Alloc); ok {
+						var vals []string
+						for _, ref := range engine.Referrers(al) {
+							if ia, ok := ref.(*ssa.IndexAddr); ok {
+								for _, r2 := range engine.Referrers(ia) {
+									if st, ok := r2.(*ssa.Store); ok {
+										if cv := constVal(st.Val); cv != nil {
+											vals = append(vals, cv.ExactString())
+										} else {
+											vals = append(vals, "?")
+										}
+									}
+								}
+							}
+						}
+						if len(vals) > 0 && !strings.Contains(strings.Join(vals, ","), "?") {
+							tag = strings.Join(vals, ",")
+						}
+					}
+				}
+				if cv := constVal(c.Call.Args[1]); cv != nil {
+					tag = cv.ExactString()
+				}
+			}
+		}
+		tags[kind] = tag
+	}
+	distinct := tags["routingNode"] != "" && tags["shortNode"] != "" && tags["valueNode"] != "" &&
+		tags["routingNode"] != tags["shortNode"] && tags["routingNode"] != tags["valueNode"] && tags["shortNode"] != tags["valueNode"]
+	r.Check(distinct, rule, "wmpt.CalcHash|kind tag", "core/util/wmpt/node.go:0", fmt.Sprintf("distinct constant tags %v", tags),
+		fmt.Sprintf("the pre-images of branch, shared-prefix and value nodes do not start with distinct constant tags (%v): a value node with weight w and value = the 16 child hashes of a branch of weight w has that branch's hash, so a one-element proof presenting the root branch as a value verifies to the trusted root", tags))
 }
